@@ -10,7 +10,9 @@ import (
 	"runtime"
 	"runtime/debug"
 	"strings"
+	"path/filepath"
 	"sync"
+	"syscall"
 	"testing"
 
 	"github.com/gabriel-vasile/mimetype/internal/charset"
@@ -390,8 +392,13 @@ func c04MetaSoup(t *rapid.T) []byte {
 func c04RepeatCheck(c c04Repeat) vfResult {
 	var r vfResult
 	x := []byte(c.X)
-	if string(x) == "slice longer than 4 GiB" { // replay of the special case
-		r.Err = c04Huge32()
+	if string(x) == "slice longer than 4 GiB" { // replay of the special cases
+		if r.Err = c04Huge32(); r.Err == nil {
+			r.Err = c04Descriptors()
+		}
+		if r.Err == nil {
+			r.Err = c04SameFile()
+		}
 		return r
 	}
 	defer SetLimit(defaultLimit)
@@ -412,6 +419,80 @@ func c04RepeatCheck(c c04Repeat) vfResult {
 	r.Nontrivial = len(x) > 0
 	r.Hash = vfHash(x, vfHashU(uint64(c.Limit)))
 	return r
+}
+
+// c04Descriptors: hundreds of detections that FAIL (a directory, a missing file, a failing
+// reader) must not use up anything later detections need: with the descriptor limit lowered
+// and the garbage collector off, a regular file is still detected afterwards.
+func c04Descriptors() error {
+	var old syscall.Rlimit
+	if err := syscall.Getrlimit(syscall.RLIMIT_NOFILE, &old); err != nil {
+		return nil
+	}
+	low := old
+	if low.Cur > 160 {
+		low.Cur = 160
+	}
+	if err := syscall.Setrlimit(syscall.RLIMIT_NOFILE, &low); err != nil {
+		return nil
+	}
+	defer syscall.Setrlimit(syscall.RLIMIT_NOFILE, &old)
+	gc := debug.SetGCPercent(-1)
+	defer debug.SetGCPercent(gc)
+	dir := vfScratchDir()
+	content := []byte("\x89PNG\r\n\x1a\n\x00\x00\x00\x0dIHDR after many failed detections")
+	p := vfWriteFile("c04fd", content, 0)
+	for i := 0; i < 400; i++ {
+		if _, err := DetectFile(dir); err == nil {
+			return fmt.Errorf("DetectFile on a directory returned no error")
+		}
+		_, _ = DetectFile(filepath.Join(dir, "no-such-file"))
+		_, _ = DetectReader(&c02FailReader{data: []byte("abc"), at: 1})
+	}
+	m, err := DetectFile(p)
+	if err != nil || vfChainStr(m) != vfChainStr(Detect(content)) {
+		return fmt.Errorf("after 400 failed DetectFile calls (descriptor limit %d, no garbage collection in between) DetectFile on a regular file gives (%s, %v), Detect on its bytes %s", low.Cur, vfChainStr(m), err, vfChainStr(Detect(content)))
+	}
+	return nil
+}
+
+// c04SameFile: a file replaced by other content of the same size, with its modification time
+// restored (cp -p, rsync -t), is a different input.
+func c04SameFile() error {
+	pairs := [][2][]byte{
+		{[]byte("a,b,c\n1,2,3\n4,5,6\n7,8,9\n"), []byte("a,b,c\n1,2,3\n4,\x005,6\n7,8,9\n")[:24]},
+		{[]byte("{\"type\":\"Feature\",\"x\":1}"), []byte("{\"typo\":\"Feature\",\"x\":1}")},
+		{[]byte("\x89PNG\r\n\x1a\n\x00\x00\x00\x0dIHDR"), []byte("plain text, same len")},
+		{[]byte("PK\x03\x04" + strings.Repeat("\x00", 40)), []byte("%PDF-1.4" + strings.Repeat(" ", 36))},
+	}
+	defer SetLimit(defaultLimit)
+	for _, limit := range []uint32{defaultLimit, 0, 16} {
+		SetLimit(limit)
+		for i, pr := range pairs {
+			a, b := pr[0], pr[1]
+			for len(b) < len(a) {
+				b = append(b, ' ')
+			}
+			b = b[:len(a)]
+			p := filepath.Join(vfScratchDir(), fmt.Sprintf("c04same-%d.dat", i))
+			if err := os.WriteFile(p, a, 0o644); err != nil {
+				panic(err)
+			}
+			st, _ := os.Stat(p)
+			if _, err := DetectFile(p); err != nil {
+				return fmt.Errorf("DetectFile: %v", err)
+			}
+			if err := os.WriteFile(p, b, 0o644); err != nil {
+				panic(err)
+			}
+			_ = os.Chtimes(p, st.ModTime(), st.ModTime())
+			m, err := DetectFile(p)
+			if want := Detect(b); err != nil || vfChainStr(m) != vfChainStr(want) {
+				return fmt.Errorf("a file detected once, then overwritten with %d other bytes and given its old modification time back, is reported as (%s, %v) under limit %d; Detect on its bytes says %s", len(b), vfChainStr(m), err, limit, vfChainStr(want))
+			}
+		}
+	}
+	return nil
 }
 
 // c04Huge32: a slice longer than 4 GiB (only its first pages are ever touched): lengths do
@@ -589,6 +670,12 @@ func TestVerif_C04(t *testing.T) {
 	if vfOnlySub("repeat") {
 		if !vfReplayMode() && vfShard() == 0 {
 			err := c04Huge32()
+			if err == nil {
+				err = c04Descriptors()
+			}
+			if err == nil {
+				err = c04SameFile()
+			}
 			var r vfResult
 			r.Nontrivial, r.Labels, r.Hash, r.Err = true, []string{"slice-longer-than-4GiB"}, vfHash([]byte("huge32")), err
 			vfStats.record(r, func() any { return map[string]any{"sub": "repeat", "case": "2^32+k byte slices under limits 3072 and 200"} })
